@@ -113,7 +113,8 @@ func init() {
 				return &Val{T: StrLit(strings.Repeat(lit, int(k))), Typ: types.Typ[types.String]}
 			}
 		}
-		r := UF("str.repeat", SStr, s, n)
+		r := UF("gs.repeat", SStr, s, n)
+		x.ctx.assumeGlobal(st, Implies(UF("gs.ascii", SBool, s), UF("gs.ascii", SBool, r)))
 		x.ctx.assumeGlobal(st, And(Eq(strLen(r), Mul(strLen(s), n)), Ge(strOff(r), IntLit(0)),
 			Implies(Eq(n, IntLit(0)), Eq(strLen(r), IntLit(0)))))
 		// characters: r[j] = s[j mod len(s)]
@@ -169,10 +170,13 @@ func (x *Exec) hasPrefix(st *State, s, p *Term) *Term {
 		}
 		return And(cs...)
 	}
-	r := UF("str.hasprefix", SBool, s, p)
+	r := UF("gs.hasprefix", SBool, s, p)
 	key := [2]int{r.id, -2}
 	if !x.typed[key] {
 		x.typed[key] = true
+		// A-UTF8: an ASCII prefix of n bytes is n characters
+		cnt := UF("gs.runecount", SInt, s)
+		x.ctx.assumeGlobal(st, Implies(And(r, UF("gs.ascii", SBool, p)), Ge(cnt, strLen(p))))
 		j := BoundVar("j", SInt)
 		x.ctx.assumeGlobal(st, Implies(r, And(Ge(strLen(s), strLen(p)),
 			Forall([]*Term{j}, Implies(And(Le(IntLit(0), j), Lt(j, strLen(p))), Eq(strAt(s, j), strAt(p, j))), []*Term{strAt(p, j)}))))
@@ -192,7 +196,7 @@ func (x *Exec) hasSuffix(st *State, s, p *Term) *Term {
 		}
 		return And(cs...)
 	}
-	r := UF("str.hassuffix", SBool, s, p)
+	r := UF("gs.hassuffix", SBool, s, p)
 	key := [2]int{r.id, -3}
 	if !x.typed[key] {
 		x.typed[key] = true
